@@ -1,6 +1,12 @@
 package harness
 
-import "fmt"
+import (
+	"fmt"
+
+	"github.com/B1NARY-GR0UP/originium"
+
+	"verif/vsched"
+)
 
 func c02Units(tier string) []Unit {
 	var units []Unit
@@ -105,13 +111,14 @@ func c02Units(tier string) []Unit {
 			}
 		}
 	}
+	units = append(units, c02ManyTablesUnits(tier)...)
 	return units
 }
 
 func init() {
 	Props["C02"] = &PropMeta{
 		Units: c02Units,
-		Rule: "every history of committed transactions (alphabet of C01) with Close+Open cycles at every position (before the first transaction, right after a rotation, with a non-empty flush queue, " +
+		Rule: "(plus: 13 single-key commits with one table each - table indices with one and two decimal digits in one level - with a reopen at every position) every history of committed transactions (alphabet of C01) with Close+Open cycles at every position (before the first transaction, right after a rotation, with a non-empty flush queue, " +
 			"after the last one; two reopens also back to back), the configuration changing from run to run (memtable/block/queue/skiplist sizes; L0TargetNum and LevelRatio fixed per directory), the process-start clock taken from the " +
 			"three order classes of the wal-name comparison, background flusher lazy and eager, plus every schedule within the stated deviations for the dev plans; after every step all keys are read and compared " +
 			"with a map model, and after the last reopen one more write to every key must be visible; non-trivial: a written key read while its newest version was not in the active memtable",
@@ -122,4 +129,140 @@ func init() {
 		},
 		QuickS: 75, ThoroughS: 1500,
 	}
+}
+
+// manyTablesScenario: more tables than one decimal digit of table index in one level. n single-key
+// commits with rotation on every commit and L0TargetNum above n, a Close+Open after commit number
+// reopenAt (0..n) and one at the end; every key is read after each reopen and at the end.
+func manyTablesScenario(cfg dbCfg, n, reopenAt int, obs *seqObs) vsched.Scenario {
+	return func() (func(), func(*vsched.Exec), func(vsched.Result) error) {
+		*obs = seqObs{}
+		desc := fmt.Sprintf("%d single-key commits (one table each, %s), reopen after commit %d and at the end", n, cfg, reopenAt)
+		fail := func(sig, f string, a ...any) {
+			if obs.err == nil {
+				obs.err = oerr("c02/"+sig, "%s: %s", desc, fmt.Sprintf(f, a...))
+			}
+		}
+		main := func() {
+			model := kvState{}
+			vsched.Freeze()
+			db, err := originium.Open("/d", cfg.config())
+			vsched.Thaw()
+			if err != nil {
+				fail("open-error", "%v", err)
+				return
+			}
+			readAll := func(stage string) bool {
+				ok := true
+				db.View(func(tx *originium.Txn) error {
+					for i := 0; i < n; i++ {
+						k := fmt.Sprintf("m%02d", i)
+						v, f := tx.Get(k)
+						obs.reads++
+						want, wok := model[k]
+						if f != wok || (f && string(v) != want) {
+							_, tabs := db.VerifShape()
+							fail("lost-after-reopen/"+stage, "Get(%q) = (%q,%v), model says (%q,%v) [tables per level %v]", k, v, f, want, wok, tabs)
+							ok = false
+							return nil
+						}
+					}
+					return nil
+				})
+				_, tabs := db.VerifShape()
+				t := 0
+				for _, x := range tabs {
+					t += x
+				}
+				obs.maxTables = max(obs.maxTables, t)
+				obs.levels = max(obs.levels, len(tabs))
+				obs.offMem = obs.reads
+				return ok
+			}
+			reopen := func(stage string) bool {
+				db.Close()
+				nextClock(obs.reopens % 3)
+				db, err = originium.Open("/d", cfg.config())
+				if err != nil {
+					fail("open-error", "%v", err)
+					return false
+				}
+				obs.reopens++
+				return readAll(stage)
+			}
+			for i := 0; i <= n; i++ {
+				if i == reopenAt {
+					if !reopen("first-reopen") {
+						return
+					}
+				}
+				if i == n {
+					break
+				}
+				k := fmt.Sprintf("m%02d", i)
+				v := fmt.Sprintf("val%d", i)
+				if err := db.Update(func(tx *originium.Txn) error { return tx.Set(k, []byte(v)) }); err != nil {
+					fail("unexpected-commit-error", "%v", err)
+					return
+				}
+				model[k] = v
+				vsched.WaitQuiescent()
+			}
+			if !readAll("before-final-reopen") {
+				return
+			}
+			if !reopen("final-reopen") {
+				return
+			}
+			db.Close()
+		}
+		check := func(res vsched.Result) error {
+			if obs.err != nil {
+				return obs.err
+			}
+			if err := StdCheck(res); err != nil {
+				oe := err.(*OracleErr)
+				return oerr("c02/"+oe.Sig, "%s: %s", desc, oe.Detail)
+			}
+			return nil
+		}
+		return main, nil, check
+	}
+}
+
+func c02ManyTablesUnits(tier string) []Unit {
+	var units []Unit
+	cfgs := []dbCfg{
+		{Mem: 1, Imm: 2, Block: 4096, L0: 14, Ratio: 10, SL: 1}, // 13 tables stay in L0: indices 0..12
+		{Mem: 1, Imm: 1, Block: 1, L0: 1, Ratio: 12, SL: 1},     // every flush compacts: L1 indices grow past 9
+	}
+	n := 13
+	for ci, cfg := range cfgs {
+		ci, cfg := ci, cfg
+		units = append(units, Unit{Name: fmt.Sprintf("many-tables/cfg%d/reopen-at-every-position", ci), Weight: 20, Run: func(c *Ctx) {
+			for at := 0; at <= n; at++ {
+				if c.Replay != nil {
+					var rc struct{ At int }
+					jsonUnmarshal(c.Replay.Case, &rc)
+					if rc.At != at {
+						continue
+					}
+				}
+				var obs seqObs
+				nv := len(c.Res.Violations)
+				ExploreSched(c, manyTablesScenario(cfg, n, at, &obs), SchedOpts{Delay: true, Budgets: []int{0}, MaxSteps: 400000,
+					Outcome: func() string {
+						return fmt.Sprintf("tables:%d levels:%d reopens:%d", obs.maxTables, obs.levels, obs.reopens)
+					},
+					NT: func() string { return fmt.Sprintf("many-tables cfg%d at%d %s", ci, at, obs.String()) },
+					Sample: func() any {
+						return map[string]any{"config": cfg.String(), "commits": n, "reopen_after_commit": at, "observed": obs.String()}
+					}})
+				for k := nv; k < len(c.Res.Violations); k++ {
+					c.Res.Violations[k].Case = jsonMarshal(map[string]any{"At": at})
+				}
+			}
+		}})
+	}
+	return units
 }
